@@ -2,37 +2,35 @@ package main
 
 import (
 	"fmt"
-	"time"
 
 	"verifharness/drv"
 	"verifharness/rec"
 )
 
 func main() {
-	for _, mode := range []string{"data", "bdat"} {
-		srv := drv.Start(drv.Cfg{MaxLine: 2000, ReadTimeout: 300 * time.Millisecond})
+	for _, mode := range []string{"bdat-last", "bdat-two", "data"} {
+		srv := drv.Start(drv.Cfg{MaxLine: 2000})
 		cn, err := srv.Dial()
 		if err != nil {
 			panic(err)
 		}
 		cn.Output()
 		srv.BE.Lock()
-		srv.BE.DataPlans = []rec.DataPlan{{Propagate: true}}
+		srv.BE.DataPlans = []rec.DataPlan{{ReadMode: rec.ReadNone}} // returns nil at once, reads nothing
 		srv.BE.Unlock()
-		if mode == "data" {
-			rs, _, _ := cn.Replies([]byte("EHLO x\r\nMAIL FROM:<a@b>\r\nRCPT TO:<c@d>\r\nDATA\r\nhello\r\n"))
-			fmt.Println(mode, "replies so far:", len(rs))
-		} else {
-			rs, _, _ := cn.Replies([]byte("EHLO x\r\nMAIL FROM:<a@b>\r\nRCPT TO:<c@d>\r\nBDAT 40\r\nhello\r\n"))
-			fmt.Println(mode, "replies so far:", len(rs))
+		var script string
+		switch mode {
+		case "bdat-last":
+			script = "EHLO x\r\nMAIL FROM:<a@b>\r\nRCPT TO:<c@d>\r\nBDAT 6 LAST\r\nhello\nNOOP\r\n"
+		case "bdat-two":
+			script = "EHLO x\r\nMAIL FROM:<a@b>\r\nRCPT TO:<c@d>\r\nBDAT 6\r\nhello\nBDAT 0 LAST\r\nNOOP\r\n"
+		default:
+			script = "EHLO x\r\nMAIL FROM:<a@b>\r\nRCPT TO:<c@d>\r\nDATA\r\nhello\r\n.\r\nNOOP\r\n"
 		}
-		time.Sleep(500 * time.Millisecond)
-		o, _ := cn.Output()
-		fmt.Printf("%s after silence: %q\n", mode, o)
-		cn.Send([]byte("MAIL FROM:<bait@x>\r\n.\r\nNOOP\r\n"))
-		time.Sleep(100 * time.Millisecond)
-		o, _ = cn.Output()
-		fmt.Printf("%s after the rest: %q\n", mode, o)
+		rs, _, _ := cn.Replies([]byte(script))
+		for _, r := range rs[1:] {
+			fmt.Printf("%s: %d %s\n", mode, r.Code, r.Text())
+		}
 		for _, c := range srv.BE.Calls() {
 			fmt.Println("   ", c.Short())
 		}
